@@ -272,7 +272,8 @@ func (b *Builder) TFlag(t types.Type) (flag abi.TFlag) {
 	case *types.Basic:
 		flag |= abi.TFlagNamed
 	case *types.Named:
-		return b.TFlag(t.Underlying()) | abi.TFlagNamed
+		// a named pointer type prints as its name, without the star of its underlying type
+		return b.TFlag(t.Underlying())&^abi.TFlagExtraStar | abi.TFlagNamed
 	case *types.Struct:
 		if IsClosure(t) {
 			flag |= abi.TFlagClosure
